@@ -90,6 +90,22 @@ pub fn run(ctx: &Ctx) {
     );
     let n = ctx.tier.pick(400_000, 4_000_000);
     ctx.par_proptest("random-trees", n, || schematree::arb_tree(TreeCfg::default()), |t, l| check(t, l));
+    ctx.par_proptest("same-name-neighbours", n / 8, || schematree::arb_same_name_neighbours(), |t, l| {
+        l.class("same-name-neighbours");
+        check(t, l)
+    });
+    // top-level enums of every width 0..=70 (layout of long variant lists) with unit / struct variants
+    ctx.par_range("enum-widths", 71 * 2, |i, l| {
+        let w = (i % 71) as usize;
+        let structs = i >= 71;
+        let t = Tree::Enum(
+            "Wide".into(),
+            (0..w)
+                .map(|v| (format!("Var{}_", v), if structs && v % 3 == 2 { TData::Struct(vec![(format!("fld{}_", v), Tree::U8)]) } else { TData::Unit }))
+                .collect(),
+        );
+        check(&t, l)
+    });
     let n = ctx.tier.pick(30_000, 300_000);
     ctx.par_proptest("deep-and-wide", n, || schematree::arb_deep_or_wide(200, 200), |t, l| check(t, l));
     let n = ctx.tier.pick(60_000, 600_000);
